@@ -124,8 +124,8 @@ for n, c in [("address", "Address"), ("complement", "Complement"), ("deref", "De
       "impl:E:set:$n->op_impl = &$v")
 F("make_throw", "ipr::Throw", "Throw", "E OT", "lx.make_throw($1, $2)", "operand=1 exception=1 implementation=?impl", "G? 2",
   "impl:E:set:$n->op_impl = &$v")
-F("make_delete", "ipr::Delete", "Delete", "E", "lx.make_delete($1)", "operand=1 storage=1 implementation=0", "N")
-F("make_array_delete", "ipr::Array_delete", "Array_delete", "E", "lx.make_array_delete($1)", "operand=1 storage=1 implementation=0", "N")
+F("make_delete", "ipr::Delete", "Delete", "E", "lx.make_delete($1)", "operand=1 storage=1 implementation=?impl", "N", "impl:E:set:$n->op_impl = &$v")
+F("make_array_delete", "ipr::Array_delete", "Array_delete", "E", "lx.make_array_delete($1)", "operand=1 storage=1 implementation=?impl", "N", "impl:E:set:$n->op_impl = &$v")
 for n, c in [("alignof", "Alignof"), ("sizeof", "Sizeof"), ("args_cardinality", "Args_cardinality"), ("typeid", "Typeid"),
              ("noexcept", "Noexcept")]:
     F("make_" + n, "ipr::" + c, c, "E OT", "lx.make_%s($1, $2)" % n, "operand=1", "G? 2")
@@ -138,7 +138,7 @@ F("make_id_expr", "ipr::Id_expr", "Id_expr", "N OT", "lx.make_id_expr($1, $2)", 
 F("make_id_expr_decl", "ipr::Id_expr", "Id_expr", "D", "lx.make_id_expr($1)", "operand=nm:1 name=nm:1 resolution=1", "B 1")
 F("make_enclosure", "ipr::Enclosure", "Enclosure", "DELIM E OT", "lx.make_enclosure($1, $2, $3)", "delimiters=1 operand=2 expr=2", "G? 3")
 F("make_construction", "ipr::Construction", "Construction", "T ENC", "lx.make_construction($1, $2)",
-  "operand=2 arguments=2 implementation=0", "G 1")
+  "operand=2 arguments=2 implementation=?impl", "G 1", "impl:E:set:$n->op_impl = &$v")
 F("make_expr_list", "ipr::Expr_list", "Expr_list", "", "lx.make_expr_list()", "operand=*items elements=*items", "PROD items",
   "items:E:push:$n->push_back(&$v)")
 F("make_phantom", "ipr::Phantom", "Phantom", "", "lx.make_phantom()", "", "N")
@@ -159,17 +159,19 @@ for n in ["and", "assign", "bitand", "bitand_assign", "bitor", "bitor_assign", "
       "impl:E:set:$n->op_impl = &$v")
 for n in ["array_ref", "arrow", "arrow_star", "dot", "dot_star"]:
     c = n.capitalize()
-    F("make_" + n, "ipr::" + c, c, "E E OT", "lx.make_%s($1, $2, $3)" % n, "first=1 second=2 base=1 member=2 implementation=0", "G? 3")
+    F("make_" + n, "ipr::" + c, c, "E E OT", "lx.make_%s($1, $2, $3)" % n, "first=1 second=2 base=1 member=2 implementation=?impl", "G? 3",
+      "impl:E:set:$n->op_impl = &$v")
 F("make_scope_ref", "ipr::Scope_ref", "Scope_ref", "E E OT", "lx.make_scope_ref($1, $2, $3)",
-  "first=1 second=2 scope=1 member=2 implementation=0", "G? 3")
+  "first=1 second=2 scope=1 member=2 implementation=?impl", "G? 3", "impl:E:set:$n->op_impl = &$v")
 F("make_member_init", "ipr::Member_init", "Member_init", "E E OT", "lx.make_member_init($1, $2, $3)",
   "first=1 second=2 member=1 initializer=2", "G? 3")
-F("make_call", "ipr::Call", "Call", "E EL OT", "lx.make_call($1, $2, $3)", "first=1 second=2 function=1 args=2 implementation=0", "G? 3")
+F("make_call", "ipr::Call", "Call", "E EL OT", "lx.make_call($1, $2, $3)", "first=1 second=2 function=1 args=2 implementation=?impl", "G? 3", "impl:E:set:$n->op_impl = &$v")
 for n in ["cast", "const_cast", "dynamic_cast", "reinterpret_cast", "static_cast"]:
     c = n.capitalize()
-    F("make_" + n, "ipr::" + c, c, "T E", "lx.make_%s($1, $2)" % n, "first=1 second=2 expr=2 implementation=0", "G 1")
+    F("make_" + n, "ipr::" + c, c, "T E", "lx.make_%s($1, $2)" % n, "first=1 second=2 expr=2 implementation=?impl", "G 1",
+      "impl:E:set:$n->op_impl = &$v")
 F("make_coercion", "ipr::Coercion", "Coercion", "E T T", "lx.make_coercion($1, $2, $3)",
-  "first=1 second=2 expr=1 target=2 implementation=0", "G 3")
+  "first=1 second=2 expr=1 target=2 implementation=?impl", "G 3", "impl:E:set:$n->op_impl = &$v")
 F("make_narrow", "ipr::Narrow", "Narrow", "E T T", "lx.make_narrow($1, $2, $3)", "first=1 second=2 expr=1 derived=2", "G 3")
 F("make_pretend", "ipr::Pretend", "Pretend", "E T T", "lx.make_pretend($1, $2, $3)", "first=1 second=2 expr=1 target=2", "G 3")
 F("make_widen", "ipr::Widen", "Widen", "E T T", "lx.make_widen($1, $2, $3)", "first=1 second=2 expr=1 base=2", "G 3")
@@ -180,13 +182,13 @@ F("make_where_nodecl", "ipr::Where", "Where", "E E", "lx.make_where($1, $2)", "f
 F("make_where", "ipr::Where", "Where", "R", "lx.make_where($1)", "first=@result main=@result", "BL result",
   "result:E:set:$n->result = &$v")
 F("make_binary_fold", "ipr::Binary_fold", "Binary_fold", "CAT E E OT", "lx.make_binary_fold($1, $2, $3, $4)",
-  "operation=1 first=2 second=3 implementation=0", "G? 4")
+  "operation=1 first=2 second=3 implementation=?impl", "G? 4", "impl:E:set:$n->op_impl = &$v")
 F("make_instantiation", "ipr::Instantiation", "Instantiation", "E SUBST", "lx.make_instantiation($1, *$2)",
   "pattern=1 substitution=2 instance=?result", "BL result", "result:E:set:$n->result = &$v")
 F("make_new", "ipr::New", "New", "OEL CTOR OT", "lx.make_new($1, $2, $3)",
-  "first=1 placement=1 second=2 initializer=2 global_requested=#0 implementation=0", "G? 3")
+  "first=1 placement=1 second=2 initializer=2 global_requested=#0 implementation=?impl", "G? 3", "impl:E:set:$n->op_impl = &$v")
 F("make_conditional", "ipr::Conditional", "Conditional", "E E E OT", "lx.make_conditional($1, $2, $3, $4)",
-  "first=1 second=2 third=3 condition=1 then_expr=2 else_expr=3 implementation=0", "G? 4")
+  "first=1 second=2 third=3 condition=1 then_expr=2 else_expr=3 implementation=?impl", "G? 4", "impl:E:set:$n->op_impl = &$v")
 F("make_mapping", "ipr::Mapping", "Mapping", "R LVL", "lx.make_mapping($1, $2)", "parameters.level=2 result=@body", "@typing",
   "body:E:set:$n->body = &$v|typing:T:set:$n->typing = &$v")
 F("make_lambda", "ipr::Lambda", "Lambda", "R LVL", "lx.make_lambda($1, $2)",
